@@ -549,7 +549,7 @@ impl World {
         }
         let given = json!({
             "vamm": Value::Object(gv),
-            "engine": {"owner": "owner", "pauser": gets(&e, "pauser", "owner")},
+            "engine": {"owner": "owner", "pauser": gets(&e, "pauser", "owner"), "ifund": "ifund", "fpool": "fpool"},
             "ifund": {"owner": "owner", "engine": "engine"},
             "fpool": {"owner": "owner"},
             "feed": {"owner": "owner"},
